@@ -68,6 +68,47 @@ func execKDE(a []Tok) string {
 
 func genC12(w *bufio.Writer, tier string, rng *rand.Rand) {
 	n := pick(tier, 900, 20000)
+	// the exported package variable StdNormal reassigned (and restored) around Gaussian-kernel estimates in a
+	// fresh process: no estimate depends on it
+	for h := 0; h < pick(tier, 6, 100); h++ {
+		fmt.Fprintf(w, "{{\nstdnormal %s %s\n", fmtF(float64(rng.Intn(9)-4)), fmtF(float64(1+rng.Intn(4))))
+		for i := 0; i < 3; i++ {
+			nx := 2 + rng.Intn(6)
+			xs := make([]float64, nx)
+			for j := range xs {
+				xs[j] = float64(rng.Intn(33)-16) / 4
+			}
+			qs := []float64{-5, -1, 0, 0.5, 2, 6}
+			fmt.Fprintf(w, "kde %s - gauss %s %s %s %s\n", fmtFs(xs), fmtF(float64(1+rng.Intn(8))/4), fmtF(0), fmtF(0), fmtFs(qs))
+		}
+		fmt.Fprintf(w, "stdnormal %s %s\n}}\n", fmtF(0), fmtF(1))
+	}
+	// weighted samples with a light outlier (cluster) far out on each side, one to two per cent of the weight
+	// together: the reported bounds still hold 98 % of the mass
+	for k := 0; k < pick(tier, 60, 1500); k++ {
+		nb := 3 + rng.Intn(5)
+		var xs, ws []float64
+		tot := 0.0
+		for j := 0; j < nb; j++ {
+			xs = append(xs, float64(rng.Intn(9)-4)/2)
+			wv := float64(20 + rng.Intn(40))
+			ws = append(ws, wv)
+			tot += wv
+		}
+		far := float64(50 + rng.Intn(200))
+		fl, fr := tot*(0.006+0.008*rng.Float64()), tot*(0.006+0.008*rng.Float64())
+		fl, fr = math.Round(fl*64)/64, math.Round(fr*64)/64
+		xs = append(xs, -far, far*(0.5+rng.Float64()))
+		ws = append(ws, fl, fr)
+		perm := rng.Perm(len(xs))
+		px, pw := make([]float64, len(xs)), make([]float64, len(xs))
+		for i, j := range perm {
+			px[i], pw[i] = xs[j], ws[j]
+		}
+		kern := []string{"epan", "gauss"}[rng.Intn(2)]
+		h := float64(1+rng.Intn(8)) / 4
+		fmt.Fprintf(w, "kde %s %s %s %s %s %s %s\n", fmtFs(px), fmtFs(pw), kern, fmtF(h), fmtF(0), fmtF(0), fmtFs([]float64{-far, -3, 0, 3, far}))
+	}
 	for k := 0; k < n; k++ {
 		nx := 1 + rng.Intn(40)
 		if rng.Intn(3) == 0 {
